@@ -429,14 +429,14 @@ Proof.
   induction e; intros v H Hv; cbn [carriesb] in H; apply orb_true_iff in H;
     (destruct H as [H|H]; [apply is_src_atom_eq in H; subst s; exists v; split; [exact Hv|apply infix_refl]|]);
     try discriminate.
-  - (* EDecodeSjis *) cbn [eval] in Hv. destruct (eval x e) as [[t| t | | | | | | |]|] eqn:Ee; try discriminate.
+  - (* EDecodeSjis *) cbn [eval] in Hv. destruct (eval x e) as [[t| t | | | | | | | |]|] eqn:Ee; try discriminate.
     destruct (asciib t); [|discriminate]. injection Hv as <-. destruct (IHe _ H eq_refl) as [sv [A B]]. exists sv. auto.
-  - (* EEncodeSjis *) cbn [eval] in Hv. destruct (eval x e) as [[t| t | | | | | | |]|] eqn:Ee; try discriminate.
+  - (* EEncodeSjis *) cbn [eval] in Hv. destruct (eval x e) as [[t| t | | | | | | | |]|] eqn:Ee; try discriminate.
     destruct (asciib t); [|discriminate]. injection Hv as <-. destruct (IHe _ H eq_refl) as [sv [A B]]. exists sv. auto.
-  - (* EStr *) cbn [eval] in Hv. destruct (eval x e) as [[t| t | z | | | | | |]|] eqn:Ee; try discriminate;
+  - (* EStr *) cbn [eval] in Hv. destruct (eval x e) as [[t| t | z | | | | | | |]|] eqn:Ee; try discriminate;
       injection Hv as <-; destruct (IHe _ H eq_refl) as [sv [A B]]; exists sv; auto.
-  - (* ECat *) cbn [eval] in Hv. destruct (eval x e1) as [[t1| | | | | | | |]|] eqn:E1; try discriminate.
-    destruct (eval x e2) as [[t2| | | | | | | |]|] eqn:E2; try discriminate. injection Hv as <-.
+  - (* ECat *) cbn [eval] in Hv. destruct (eval x e1) as [[t1| | | | | | | | |]|] eqn:E1; try discriminate.
+    destruct (eval x e2) as [[t2| | | | | | | | |]|] eqn:E2; try discriminate. injection Hv as <-.
     apply orb_true_iff in H. destruct H as [H|H].
     + destruct (IHe1 _ H eq_refl) as [sv [A B]]. exists sv. split; auto. cbn [mtext] in *. apply infix_app_l. exact B.
     + destruct (IHe2 _ H eq_refl) as [sv [A B]]. exists sv. split; auto. cbn [mtext] in *. apply infix_app_r. exact B.
@@ -690,6 +690,10 @@ Proof.
   - (* EFirstOffset *) pose proof (assocZ_same_rows _ _ l Hl) as R.
     destruct (assocZ l (c_lists (x_chart x))) as [f|], (assocZ l (c_lists (x_chart x'))) as [f'|]; try contradiction;
       [|reflexivity]. destruct R as [R1 R2]. rewrite (col_vals_abs f f' COL_OFFSET R1 R2). reflexivity.
+  - (* EStackMaxPlus *) assert (E: stack_col_vals (x_chart x) col = stack_col_vals (x_chart x') col).
+    { unfold stack_col_vals. clear - Hl. induction Hl as [|[n1 f1] [n2 f2] L L' [_ [E2 E3]] _ IH]; [reflexivity|].
+      cbn [flat_map snd] in *. rewrite (col_vals_abs f1 f2 col E2 E3), IH. reflexivity. }
+    rewrite E. reflexivity.
 Qed.
 
 Theorem conv_chart_labels_irrelevant d a sm k c c' oracle :
